@@ -241,13 +241,17 @@ WBEM_URI_CLASSPATH_REGEXP = re.compile(
     r'^(?:([\w\-]+):)?'  # namespace type (URI scheme)
     r'(?://([\w.:@\[\]\-%]*))?'  # authority (host)
     r'(?:/|^/?)(\w+(?:/\w+)*)?'  # namespace name (leading slash optional)
-    r'(?::|^:?)(\w+)$',  # class name (leading colon optional)
+    # class name (leading colon optional; the colon is also optional directly
+    # after the slash that ends an authority, as printed in historical format)
+    r'(?::|^:?|(?(2)(?<=/)|(?!)))(\w+)$',
     flags=re.UNICODE)
 WBEM_URI_INSTANCEPATH_REGEXP = re.compile(
     r'^(?:([\w\-]+):)?'  # namespace type (URI scheme)
     r'(?://([\w.:@\[\]\-%]*))?'  # authority (host)
     r'(?:/|^/?)(\w+(?:/\w+)*)?'  # namespace name (leading slash optional)
-    r'(?::|^:?)(\w+)'  # class name (leading colon optional)
+    # class name (leading colon optional; the colon is also optional directly
+    # after the slash that ends an authority, as printed in historical format)
+    r'(?::|^:?|(?(2)(?<=/)|(?!)))(\w+)'
     r'\.(.+)$',  # key bindings (string values may contain newlines)
     flags=re.UNICODE | re.DOTALL)
 
